@@ -124,13 +124,19 @@ class NetworkService(ModelElement):
                 if existing_node_id != node_id:
                     raise TopologyException(f'Service name {name} node id does not match the expected node id.')
             # collect a list of interface nodes it attaches to
-            interface_list = self.topo.graph_model.get_all_ns_or_link_connection_points(link_id=self.node_id)
-            name_id_tuples = list()
-            # need to look up their names - a bit inefficient, need to think about this /ib
-            for iff in interface_list:
-                _, props = self.topo.graph_model.get_node_properties(node_id=iff)
-                name_id_tuples.append((props[ABCPropertyGraph.PROP_NAME], iff))
-            self._interfaces = [Interface(node_id=tup[1], topo=topo, name=tup[0]) for tup in name_id_tuples]
+            self._load_interfaces()
+
+    def _load_interfaces(self):
+        """
+        (Re)read the list of interfaces of this service from the model
+        """
+        interface_list = self.topo.graph_model.get_all_ns_or_link_connection_points(link_id=self.node_id)
+        name_id_tuples = list()
+        # need to look up their names - a bit inefficient, need to think about this /ib
+        for iff in interface_list:
+            _, props = self.topo.graph_model.get_node_properties(node_id=iff)
+            name_id_tuples.append((props[ABCPropertyGraph.PROP_NAME], iff))
+        self._interfaces = [Interface(node_id=tup[1], topo=self.topo, name=tup[0]) for tup in name_id_tuples]
 
     @property
     def type(self):
@@ -376,8 +382,8 @@ class NetworkService(ModelElement):
             raise TopologyException(f'Interface {interface.name} is not connected to network service {self.name}')
 
         self.topo.graph_model.remove_cp_and_links(node_id=peers[0].node_id)
-        # remove from interface list as well
-        self._interfaces = list(filter((lambda x: x.node_id != peers[0].node_id), self._interfaces))
+        # bring the interface list up to date (interfaces may also have been connected through another handle)
+        self._load_interfaces()
 
     def add_interface(self, *, name: str, node_id: str = None, itype: InterfaceType = InterfaceType.TrunkPort,
                       **kwargs):
@@ -415,8 +421,8 @@ class NetworkService(ModelElement):
         node_id = self.topo.graph_model.find_connection_point_by_name(parent_node_id=self.node_id,
                                                                       iname=name)
         self.topo.graph_model.remove_cp_and_links(node_id=node_id)
-        # remove from interface list as well
-        self._interfaces = list(filter((lambda x: x.node_id != node_id), self._interfaces))
+        # bring the interface list up to date
+        self._load_interfaces()
 
     def peer(self, ns, **kwargs) -> None:
         """
@@ -448,8 +454,8 @@ class NetworkService(ModelElement):
         self.topo.graph_model.remove_cp_and_links(node_id=sp[1])
         ns.topo.graph_model.remove_cp_and_links(node_id=sp[-2])
         # update interface lists
-        self._interfaces = list(filter((lambda x: x.node_id != sp[1]), self._interfaces))
-        ns._interfaces = list(filter((lambda x: x.node_id != sp[-2]), ns._interfaces))
+        self._load_interfaces()
+        ns._load_interfaces()
 
     def copy_to_peer_labels(self) -> None:
         """
